@@ -35,12 +35,14 @@ class C06(Prop):
     components = {"real": ["everything under src/entity_query_language except rendering"],
                   "stub": ["user data classes, predicates, domains (simulator-owned)"]}
     vacuity = {"quick": ["probe:class_0", "probe:class_1", "probe:class_many", "probe:reeval_after_raise",
-                         "probe:held_exception", "probe:set_of_the", "probe:shared_variables", "probe:separate_variables"]}
+                         "probe:held_exception", "probe:set_of_the", "probe:shared_variables", "probe:separate_variables",
+                         "probe:an_iterator_left_suspended", "probe:shared_condition_objects"]}
 
     def gen(self, rng, tier, campaign):
         cfg = G.gen_config(rng, tier, all_selected=True)
         cfg["vocab"] = [v for v in cfg["vocab"] if v not in ("forall", "kw")]
         cfg["n_queries"] = 1
+        cfg["kinds"] = ["list", "list", "tuple", "gen", "iterobj"]
         cfg["n_obj"] = rng.randint(1, 5)
         world, pool = G.gen_world_and_pool(rng, cfg)
         # small domains make exactly-one outcomes frequent
@@ -52,6 +54,8 @@ class C06(Prop):
         t["id"] = "t0"
         t["quant"] = "the"
         shared = rng.random() < 0.5
+        if shared and rng.random() < 0.4:
+            t["conds_from"] = "q0"      # one condition object used by both the `an` and the `the` query
         pool["queries"].append(t)
         ops = []
         for _ in range(rng.randint(1, 7)):
@@ -60,6 +64,9 @@ class C06(Prop):
                 ops.append(["an_full"])
             elif r < 0.35:
                 ops.append(["an_take", rng.choice([0, 1, 1, 2])])
+            elif r < 0.45:
+                # an `an` iterator left suspended (still referenced, never advanced again) while `the` is evaluated
+                ops.append(["an_keep", rng.choice([1, 1, 2, 3])])
             else:
                 ops.append(["the", rng.choice([0, 0, 1, 3])])
         ops.append(["the", 0])
@@ -107,6 +114,13 @@ class C06(Prop):
                         if op[0] == "an_full":
                             o = run.full("q0", pool=an_pool)
                             sig.append(("an_full", o.end))
+                        elif op[0] == "an_keep":
+                            s = run.start(f"_k{i}", "q0", pool=an_pool)
+                            k = run.advance(s, op[1])
+                            sim.count("probe:an_iterator_left_suspended")
+                            if "conds_from" in plan["pool"]["queries"][1]:
+                                sim.count("probe:shared_condition_objects")
+                            sig.append(("an_keep", k, s.state))
                         elif op[0] == "an_take":
                             s = run.start(f"_a{i}", "q0", pool=an_pool)
                             k = run.advance(s, op[1])
@@ -163,7 +177,16 @@ class C06(Prop):
             t = copy.deepcopy(q0[0])
             t["id"] = "t0"
             t["quant"] = "the"
+            old_t = [q for q in plan["pool"]["queries"] if q["id"] == "t0"]
+            if old_t and old_t[0].get("conds_from"):
+                t["conds_from"] = "q0"
             c["pool"]["queries"] = [q0[0], t]
+            yield c
+        tq = [q for q in plan["pool"]["queries"] if q["id"] == "t0"]
+        if tq and tq[0].get("conds_from"):
+            c = copy.deepcopy(plan)
+            for q in c["pool"]["queries"]:
+                q.pop("conds_from", None)
             yield c
         if plan.get("shared"):
             c = copy.deepcopy(plan)
